@@ -100,6 +100,10 @@ def run(ctx):
         return (lib.run_shell("brush", c[1], mode=c[3], timeout=20), lib.run_shell("bash", c[1], mode=c[3], timeout=20))
 
     res = lib.pmap(one, cases)
+    for i, (b, o) in enumerate(res):          # a timeout under load is not evidence: retry alone, generously
+        if b["timeout"] or o["timeout"]:
+            c = cases[i]
+            res[i] = (lib.run_shell("brush", c[1], mode=c[3], timeout=120), lib.run_shell("bash", c[1], mode=c[3], timeout=120))
     mouts = lib.run_drv_parallel([c[2] for c in cases])
     for (tag, script, req, mode), (b, o), m in zip(cases, res, mouts):
         ctx.count(script + mode, nontrivial=True, bucket=tag + "/" + mode)
@@ -173,6 +177,9 @@ def err_trap_direct(ctx):
         script = "\n".join(lines[:-1] + [trap, lines[-1]]) + "\n"
         cases.append(script)
     res = lib.pmap(lambda s: lib.run_both(s, timeout=20), cases)
+    for i, (b, o) in enumerate(res):
+        if b["timeout"] or o["timeout"]:
+            res[i] = lib.run_both(cases[i], timeout=120)
     for s, (b, o) in zip(cases, res):
         ctx.count("err" + s, nontrivial=True, bucket="err-trap-direct")
         if "( (" in s:
